@@ -426,6 +426,12 @@ pub fn gen_plan(rng: &mut Prng, profile: Profile, ipv4: bool, a: &SockCfg, b: &S
                     }
                 }
             }
+            // ordinary loss next to the size black hole in a third of the cases: a lost ordinary
+            // segment must not be blamed on the probe behind it
+            if rng.chance(0.35) {
+                p.loss = *rng.pick(&[0.01, 0.03]);
+                p.protect_handshake = true;
+            }
         }
     }
     p
